@@ -25,6 +25,7 @@
 #include <BayesFilters/LikelihoodModel.h>
 #include <BayesFilters/utils.h>
 #include <cmath>
+#include <limits>
 #include <cstdlib>
 #include <memory>
 #include <new>
@@ -489,21 +490,44 @@ static std::string psadd(Toks& t) {
 }
 
 // ---------------------------------------------------------------- resampling
+// log-weight profiles (same numbering as BFL.Bounds.weightOracle): the shape is right, the values are anything
+//   0 normalised uniform; 1 normalised, skewed; 2 all -inf; 3 all underflowing (exp == 0); 4 exponentials sum to 0.5;
+//   5 exponentials sum to 1e-6 * N; 6 exponentials sum to N (> 1); 7 one normalised-size weight, the others -inf; 8 all NaN
+static void setWeights(ParticleSet& p, long prof) {
+    const long N = p.components;
+    for (long i = 0; i < N; ++i) {
+        double w;
+        switch (prof) {
+            case 0: w = -std::log(double(N)); break;
+            case 1: w = std::log((i == 0) ? (N > 1 ? 0.5 : 1.0) : 0.5 / double(N - 1)); break;
+            case 2: w = -std::numeric_limits<double>::infinity(); break;
+            case 3: w = -800.0 - i; break;
+            case 4: w = std::log(0.5 / double(N)); break;
+            case 5: w = std::log(1e-6); break;
+            case 6: w = 0.0; break;
+            case 7: w = (i == N / 2) ? -std::log(double(N)) : -std::numeric_limits<double>::infinity(); break;
+            case 8: w = std::numeric_limits<double>::quiet_NaN(); break;
+            default: throw vh::BadArgs("profile");
+        }
+        p.weight(i) = w;
+    }
+}
 static std::string rs(Toks& t) {
     long N = t.nat(), dl = t.nat(), dc = t.nat(); bool quat = t.flag();
-    long rN = t.nat(), rl = t.nat(), rc = t.nat(); bool rq = t.flag(); long plen = t.nat(); t.done();
-    ParticleSet cor(N, dl, dc, quat), res(rN, rl, rc, rq); fillPS(cor);
+    long rN = t.nat(), rl = t.nat(), rc = t.nat(); bool rq = t.flag(); long plen = t.nat(), prof = t.nat(); t.done();
+    ParticleSet cor(N, dl, dc, quat), res(rN, rl, rc, rq); fillPS(cor); setWeights(cor, prof);
     VectorXi par = VectorXi::Constant(plen, -7);
-    Resampling r(3);
+    Resampling r(3 + prof);
     r.resample(cor, res, par);
-    long unwritten = 0; for (long i = 0; i < par.size(); ++i) if (par(i) == -7) ++unwritten;
-    Out o; o.s("ok").n(res.components).s(shpT(res.state())).n(unwritten);
+    long unwritten = 0, bad = 0;
+    for (long i = 0; i < par.size(); ++i) { if (par(i) == -7) ++unwritten; else if (par(i) < 0 || par(i) >= N) ++bad; }
+    Out o; o.s("ok").n(res.components).s(shpT(res.state())).n(unwritten).n(bad);
     return o.str();
 }
 static std::string rwp(Toks& t) {
     long N = t.nat(), rnum = t.nat(), rden = t.nat(), dl = t.nat(), dc = t.nat(); bool quat = t.flag();
-    long nx = t.nat(), ny = t.nat(), plen = t.nat(); t.done();
-    ParticleSet cor(N, dl, dc, quat), res(1, 1); fillPS(cor);
+    long nx = t.nat(), ny = t.nat(), plen = t.nat(), prof = t.nat(); t.done();
+    ParticleSet cor(N, dl, dc, quat), res(1, 1); fillPS(cor); setWeights(cor, prof);
     VectorXi par = VectorXi::Constant(plen, -7);
     ResamplingWithPrior r(std::unique_ptr<ParticleSetInitialization>(new InitSurveillanceAreaGrid(10.0, 20.0, nx, ny)), double(rnum) / double(rden), 3);
     r.resample(cor, res, par);
